@@ -354,13 +354,13 @@ TPart ==
 (***************************************************************************)
 ReadKeyCmp(t1, t2, order) == KeyCmp(OrderKeys(t1, order), OrderKeys(t2, order), OrderDirs(order), 1)
 (* "" when the observed rows O are an admissible answer for the reference bag E *)
-ReadVerdict(E, O, ret) ==
+ReadVerdict(E, O, ret, bc) ==
   LET s == IF ret.skip < 0 THEN 0 ELSE ret.skip
       rest == IF Len(E) > s THEN Len(E) - s ELSE 0
       want == IF ret.limit < 0 \/ ret.limit > rest THEN rest ELSE ret.limit
       sliced == ret.skip > 0 \/ (ret.limit >= 0 /\ ret.limit < Len(E))
-      foreign == {p \in 1..Len(O) : CountSame(O, O[p]) > CountSame(E, O[p])}
-      missing == {p \in 1..Len(E) : CountSame(O, E[p]) < CountSame(E, E[p])}
+      foreign == {p \in 1..Len(O) : CountSameB(O, O[p], bc) > CountSameB(E, O[p], bc)}
+      missing == {p \in 1..Len(E) : CountSameB(O, E[p], bc) < CountSameB(E, E[p], bc)}
       unsorted == {p \in 1..(Len(O) - 1) : ReadKeyCmp(O[p], O[p + 1], ret.order) > 0}
       before(t, strict) == Cardinality({i \in 1..Len(E) :
                               LET c == ReadKeyCmp(E[i], t, ret.order) IN IF strict THEN c < 0 ELSE c <= 0})
@@ -376,7 +376,7 @@ TRead ==
   /\ l <= Len(Rec) /\ Rec[l].ev = "case" /\ Rec[l].kind \in {"read", "idx"}
   /\ LET q == Meta.ast
          E == ResultBag(gr, q)
-         v == IF IsRows THEN ReadVerdict(E, Rows, q.ret) ELSE "query-failed"
+         v == IF IsRows THEN ReadVerdict(E, Rows, q.ret, BagCols(q)) ELSE "query-failed"
          idxCauses ==   \* why the index may have missed the reference rows that were not returned
            LET lab == q.parts[1].pats[1].nodes[1].labels[1]
                litv == IF HasWhere(q.parts[1].where) THEN q.parts[1].where[4][2]
@@ -392,7 +392,7 @@ TRead ==
                   ELSE IF Rec[l].kind = "idx" THEN
                          (IF \A p \in 1..NRows : CountSame(Rows, Rows[p]) <= CountSame(E, Rows[p])
                           THEN "index-misses-rows" ELSE "index-adds-rows")
-                  ELSE IF MultiPattern(q) /\ ReadVerdict(ResultBagU(gr, q, TRUE), Rows, q.ret) = ""
+                  ELSE IF MultiPattern(q) /\ ReadVerdict(ResultBagU(gr, q, TRUE), Rows, q.ret, BagCols(q)) = ""
                        THEN "rel-uniqueness-only-within-one-pattern"
                   ELSE IF BoundMidNode(q) THEN "bound-node-in-the-middle-of-a-pattern"
                   ELSE IF HasParallel(gr) THEN "graph-has-parallel-relationships"
